@@ -26,6 +26,11 @@ STRESS = [
     "class Base<list<int> l> { list<int> sel = !filter(x, l, limit); } class Derived : Base<[1]>; defm D : Derived; defvar v = w; multiclass M : Derived { def a; } def z { int a = b; }",
     "class Base<list<int> l = !foreach(x, [1,2], x{0})> { int t = !foldl(0, l, a, b, b.nofield); } class Derived : Base; multiclass M : Derived { def a; } defm q : M, Derived; def z { int a = b; Derived d = q_a; }",
     "class P { int v = !cond(nosuch: 1, true: 2); list<int> w = !foreach(e, [1], !filter(f, [e], f{0})); } class Q : P; foreach i = [1] in { defm r#i : Q; } multiclass S : Q; defm t : S, Q, P; def u : Q { int x = y; }",
+    # lexical errors that span a line break, with non-ASCII text on their first line (ranges computed from such tokens must stay
+    # on character boundaries of the file)
+    "class A {\n  string s = \"caf\u00e9\n}\n", "class A {\r\n  string s = \"\u65e5\u672c\u8a9e\u306e\u30c6\u30ad\u30b9\u30c8\r\n}\r\n",
+    "class A {\n  code c = [{ return x; // \u00e9\n  more();\n}\n", "#define // nom \u00e0 choisir, cot\u00e9 client\u00e8le\n42\nclass A;\n",
+    "#ifdef /* \U0001F600 */ // \u00fc\n\"x\nclass B;\n#endif", "def X { string s = \"wei\u00df\n}\ndef Y { code c = [{ \u00e9\u00e9 \n", "def \"na\u00efve\n : A;",
     # redefinitions and shadowing
     "class A; class A; class A { int a; } def A; def A : A; defvar A = 1; multiclass A { def A; } defm A : A;",
     "class R<int a, int a> { int a = a; let a = a; } def r : R<1, 2> { let a = a; int a = 3; }",
